@@ -69,6 +69,7 @@ def rule_d(ctx):
         V = hl.View(F, R, T)
         b = hl.rule_reader_order(ctx, rid, V)
         hl.rule_release(ctx, rid, V, b[4] if b else None)
+        hl.rule_slots_start_zero(ctx, rid, V)
     c01g(_Alias(ctx, rid))
 
 
